@@ -3,7 +3,7 @@
 that the manifest stays valid while checks are added)."""
 import json, subprocess
 
-IMPLEMENTED = """C01 C02 C03 C04 C05 C06 C07 C08 C09 C10 C11 C12 C13 C14 C15 C16 C19 C20""".split()
+IMPLEMENTED = """C01 C02 C03 C04 C05 C06 C07 C08 C09 C10 C11 C12 C13 C14 C15 C16 C17 C18 C19 C20""".split()
 
 LEVEL = {p: "exploration" for p in ["C%02d" % i for i in range(1, 21)]}
 LEVEL["C19"] = "fault_enumeration"
